@@ -570,6 +570,8 @@ class Evaluator:
         if isinstance(a, SymInt) and isinstance(b, int) and not isinstance(b, bool) or (isinstance(a, SymInt) and isinstance(b, SymInt) and b.is_const()):
             c = b if isinstance(b, int) else b.value()
             lo, hi = a.lo, a.hi
+            if a.is_const():
+                lo = hi = a.value()
             known = getattr(self, "field_ranges", {}).get(_raw_field(a))
             if known is not None:  # a value re-assembled bit by bit from one input field keeps that field's range
                 lo, hi = max(lo, known[0]), min(hi, known[1])
